@@ -99,6 +99,8 @@ def strategy_(draw, shard):
     case["stat"] = draw(st.sampled_from(STATS))
     case["optimizer"] = shard["optimizer"]
     case["at_bestfit"] = draw(st.integers(0, 7)) == 0
+    # the caller holds nuisance parameters constant through the fixed_params argument (not through the model)
+    case["hold"] = [draw(st.integers(0, 3)) == 0 for _ in range(8)] if draw(st.integers(0, 3)) == 0 else None
     return case
 
 
@@ -174,6 +176,23 @@ def run_case(case, ctx):
             if pu is not None and case["bounds"][0] < pu[0] < case["bounds"][1]:
                 mu = pu[0]
         init, bounds, fixed = cfg.suggested_init(), cfg.suggested_bounds(), cfg.suggested_fixed()
+        held = []
+        if case.get("hold"):
+            fixed = [bool(f) for f in fixed]
+            if case["family"] == "C":
+                held = [i for i in range(cfg.npars) if i != cfg.poi_index]
+            elif case["family"] == "G":
+                held = [i for i in range(cfg.npars) if i != cfg.poi_index and case["hold"][i % 8]]
+            for i in held:
+                fixed[i] = True
+            if held and case["family"] == "C":
+                # gamma held at 1: the constraint term is the same constant in both fits and the statistic is
+                # that of the nuisance-free counting model
+                fam = refstats.FamilyA([case["s"]], [case["b"]], tuple(case["bounds"]))
+                fdata = [case["data"][0]]
+                if case["at_bestfit"]:
+                    pu, _ = fam.unconditional(fdata)
+                    mu = pu[0] if pu is not None and case["bounds"][0] < pu[0] < case["bounds"][1] else case["mu"]
         fn = getattr(T, stat)
         sig = f"C06/{stat}"
         try:
@@ -202,6 +221,10 @@ def run_case(case, ctx):
             ctx.fail(f"{sig}/negative_or_nan", q=qv)
         if mubh[pi] != tested:
             ctx.fail(f"{sig}/conditional_poi_not_at_tested_value", got=mubh[pi], want=tested)
+        for i in held:
+            for nm, vec in (("conditional", mubh), ("unconditional", muh)):
+                if abs(vec[i] - float(init[i])) > 1e-10 * max(1.0, abs(float(init[i]))):
+                    ctx.fail(f"{sig}/caller_fixed_parameter_moved/{nm}_fit", index=i, got=vec[i], want=float(init[i]))
         # value from the returned fitted parameters
         pc, pu = flat_to_pars(cfg, mubh), flat_to_pars(cfg, muh)
         mc, cc, sc = ref.logpdf_parts(pc, main, aux)
@@ -235,7 +258,7 @@ def run_case(case, ctx):
                     ctx.err("closed_form", 0.0 if ok else float("inf"))
                     if not ok:
                         ctx.fail(f"{sig}/closed_form/{case['family']}/near_seam", got=qv, raw=rraw)
-                elif abs(qv - qr) > tol and _fit_did_not_converge(pyhf, fam, case, tested, data, fdata, model, init, bounds,
+                elif abs(qv - qr) > tol and not held and _fit_did_not_converge(pyhf, fam, case, tested, data, fdata, model, init, bounds,
                                                                    fixed, mubh, muh):
                     # root cause is the optimiser (recorded under C05), not the test-statistic logic: the
                     # statistic returns exactly the points the direct fits return, and those miss the optimum
@@ -254,6 +277,8 @@ def run_case(case, ctx):
             ctx.label("fitted_poi_on_lower_bound")
         if case["at_bestfit"]:
             ctx.label("tested_at_closed_form_best_fit")
+        if held:
+            ctx.label("nuisance_held_by_caller")
         if branch != "plain" or on_bound:
             shape = case["family"] if fam is not None else [
                 (c["name"], len(c["samples"]), len(c["samples"][0]["data"])) for c in spec["channels"]]
